@@ -98,7 +98,8 @@ type csvRecordsWriter struct {
 }
 
 func (w *csvRecordsWriter) Write(record []string) error {
-	w.records = append(w.records, record)
+	// keep a copy: a csv.Reader with ReuseRecord overwrites the record on the next Read
+	w.records = append(w.records, append(make([]string, 0, len(record)), record...))
 
 	return nil
 }
